@@ -1,5 +1,10 @@
 """Driver for C11: real PrioritizedReplayBuffer, exact mode (alpha=1, integer priorities, stubbed
-variates) and inexact mode (random float priorities / alpha / beta; discrete facts only)."""
+variates) and inexact mode (random float priorities / alpha / beta; discrete facts only).
+
+Varied besides the operation sequence: observation kind, the dtype option, the containers handed to update_priorities
+(indices (k,) / (k,1) int64 tensors as batch["idxs"] is, or numpy; priorities float64 / float32 tensors or the float32 numpy
+array Rainbow's learn() returns), batch sizes above the current length, sample() called without beta (its default 0.4),
+batches drawn through Sampler(memory=buffer)."""
 from __future__ import annotations
 
 import math
@@ -41,13 +46,29 @@ def snapshot(buf):
             "maxp": _toint(buf.max_priority), "size": len(buf), "ptr": int(buf.tree_ptr), "cursor": int(buf._cursor)}
 
 
-def run_exact(N, ops, beta=1.0, uden=8, kind="vector"):
+def update_args(idxs, pris, variant):
+    """(indices, priorities) in one of the container / dtype combinations a caller may use; the second result is the list of
+    priorities as the buffer sees them (after rounding to the container's dtype)."""
+    v = variant % 4
+    if v == 0:
+        return torch.tensor(idxs), torch.tensor([float(p) for p in pris], dtype=torch.float64), [float(p) for p in pris]
+    p32 = np.array([float(p) for p in pris], dtype=np.float32)
+    seen = [float(x) for x in p32]
+    if v == 1:          # what train_off_policy passes: batch["idxs"] (B,1) and a float32 numpy array
+        return torch.tensor(idxs).unsqueeze(1), p32, seen
+    if v == 2:
+        return np.array(idxs, dtype=np.int64), torch.from_numpy(p32.copy()), seen
+    return torch.tensor(idxs, dtype=torch.int32), torch.from_numpy(p32.copy()).unsqueeze(1), seen
+
+
+def run_exact(N, ops, beta=1.0, uden=8, kind="vector", seed=0):
     """ops: ("add", w) | ("update", idxs, pris) | ("sample", B, u_numerators)."""
     from agilerl.components.replay_buffer import PrioritizedReplayBuffer
 
-    buf = PrioritizedReplayBuffer(max_size=N, alpha=1.0)
+    buf = PrioritizedReplayBuffer(max_size=N, alpha=1.0, dtype=(torch.float32, torch.float64)[seed % 2])
     nxt = 1
     ev = []
+    n_upd = 0
     for op in ops:
         e = {"op": op[0], "exc": ""}
         try:
@@ -60,7 +81,9 @@ def run_exact(N, ops, beta=1.0, uden=8, kind="vector"):
                 buf.clear()
             elif op[0] == "update":
                 e["idxs"], e["pris"] = list(op[1]), list(op[2])
-                buf.update_priorities(torch.tensor(op[1]), torch.tensor([float(p) for p in op[2]]))
+                n_upd += 1
+                ia, pa, _ = update_args(op[1], op[2], n_upd + seed)         # small integers: exact in every dtype used
+                buf.update_priorities(ia, pa)
             elif op[0] == "sample":
                 B, us = op[1], op[2]
                 e.update({"B": B, "u": list(us), "idxs": [], "wnum": [], "wden": []})
@@ -94,9 +117,10 @@ def run_inexact(N, alpha, beta, ops, kind="vector", seed=0):
 
     from agilerl.components.sampler import Sampler
 
-    buf = PrioritizedReplayBuffer(max_size=N, alpha=alpha)
+    buf = PrioritizedReplayBuffer(max_size=N, alpha=alpha, dtype=(torch.float32, torch.float64)[seed % 2])
     sampler = Sampler(memory=buf)
     nsample = 0
+    n_upd = 0
     cap = buf.sum_tree.capacity
     nxt = 1
     seen_max = 1.0
@@ -131,7 +155,9 @@ def run_inexact(N, alpha, beta, ops, kind="vector", seed=0):
             elif op[0] == "update":
                 idxs, pris = op[1], op[2]
                 e["k"] = len(idxs)
-                buf.update_priorities(torch.tensor(idxs), torch.tensor(pris, dtype=torch.float64))
+                n_upd += 1
+                ia, pa, pris = update_args(idxs, pris, n_upd + seed)        # pris: the values as the buffer sees them
+                buf.update_priorities(ia, pa)
                 seen_max = max([seen_max] + [max(float(p), 1e-5) for p in pris])
                 last = {}
                 for i, p in zip(idxs, pris):
@@ -144,7 +170,12 @@ def run_inexact(N, alpha, beta, ops, kind="vector", seed=0):
                 nsample += 1
                 with mock.patch.object(torch, "rand", stub):
                     # every other batch is drawn the way the training loops draw it: through the Sampler
-                    b = sampler.sample(B, beta) if nsample % 2 == 0 else buf.sample(B, beta)
+                    if nsample % 2 == 0:
+                        b = sampler.sample(B, beta)
+                    elif beta == 0.4 and nsample % 4 == 1:
+                        b = buf.sample(B)                    # beta omitted: the documented default 0.4
+                    else:
+                        b = buf.sample(B, beta)
                 idxs = [int(x) for x in b["idxs"].reshape(-1).tolist()]
                 e["idxs"] = idxs
                 n = len(buf)
